@@ -829,9 +829,10 @@ pub fn hazards(p: &Prog, evals: &[ProbeEval]) -> Vec<&'static str> {
         if explicit.iter().any(|(m, id)| m == n && *id != e.target) {
             out.push("alias");
         }
-        // an illegal unqualified reference is rescued by an import of that name anywhere in the
+        // an unqualified reference that illegally goes through a non-pub import of another module
+        // is rescued by an import of that name anywhere in the
         // file whose function is itself accessible (only the final function is checked there)
-        if e.res.is_err()
+        if e.res.as_ref().is_err_and(|r| matches!(r.culprit, Ent::Use(..)))
             && explicit.iter().any(|(m, id)| {
                 m == n
                     && id.as_ref().is_some_and(|fid| {
